@@ -4,6 +4,6 @@ cd /verif
 for id in "$@"; do
   prop=$(echo $id | cut -c1-3)
   tools/seediso.sh >/dev/null
-  python3 tools/seedtest.py $id --checks $prop --root /tmp/sv > .work/seed_$id.log 2>&1
+  python3 tools/seedtest.py $id --checks $prop --root ${SV_ROOT:-/tmp/sv} > .work/seed_$id.log 2>&1
   echo "$id done: $(python3 -c "import json;m=json.load(open('seeded/$id/meta.json'));print(m['confirmed'].get('all'), {k:(v.get('exit'),v.get('violations'),v.get('keys')) if isinstance(v,dict) else v for k,v in m['checks'].items()})" 2>&1)"
 done
